@@ -463,6 +463,14 @@ def run(ctx) -> None:  # noqa: F811
         ctx.violation("R-BASETILT-ALWAYS", f"{f.qualname}:base-tilt", f.where,
                       "no `if waves.base_tilt ...: _apply_tilt_to_fresnel_propagator_array(...)` is left in "
                       "_calculate_array: a scalar beam tilt never reaches the propagator", key_detail="missing")
+    for t in tests:
+        tt = t.ast.test
+        conj = tt.values if isinstance(tt, _ast.BoolOp) and isinstance(tt.op, _ast.And) else [tt]
+        extra = [c for c in conj if "base_tilt" not in _nt(c)]
+        ctx.check(not extra, "R-BASETILT-ALWAYS", f"{f.qualname}:base-tilt condition", f.loc(t.ast),
+                  "the base tilt is applied whenever it is non-zero",
+                  f"the base tilt is applied only when additionally `{' and '.join(_nt(c) for c in extra)}` holds: "
+                  "otherwise a non-zero scalar tilt is ignored", key_detail="condition")
     for r in (rets if tests else []):
         ok = any(cfg.dominates(t.idx, r.idx) for t in tests)
         ctx.check(ok, "R-BASETILT-ALWAYS", f"{f.qualname}:return `{_nt(r.ast)[:30]}`", f.loc(r.ast),
